@@ -92,40 +92,100 @@ def rule_b(ctx):
             r.violate(key, "character %#04x is lexed as %s, expected a single `\\n`" % (v, sorted(cs)), b.loc())
     # default arm passes the char through unchanged
     dflt = [rv for bb, i, pl, rv, s in b.assignments() if bb == t["else"] and pl.local == kind_local]
-    # CRLF: under peek() == Some('\n'): exactly one extra buf.next() and cursor += 1
+    # CRLF: in the CR arm the char after CR is consumed exactly when it is LF, and the byte position advances by 1 exactly
+    # on the paths that consume it.  Accepted consumption idioms: `if peek() == Some(&'\n') { next() }`, `next_if_eq(&'\n')`.
     cr = vals.get(0x0D)
     if cr is not None:
-        region = common.reach_from(b, cr) - common.reach_from(b, t["else"]) - (common.reach_from(b, vals.get(0x0C)) if 0x0C in vals else set())
-        peeks = [c for c in b.calls() if c.bb in region | {cr} and an.tail2(c.callee) == "Peekable::peek"]
+        region = (common.reach_from(b, cr) - common.reach_from(b, t["else"]) - (common.reach_from(b, vals.get(0x0C)) if 0x0C in vals else set())) | {cr}
+        exits = {s_ for x in region for s_ in b.succ(x) if s_ not in region}
+        peeks = [c for c in b.calls() if c.bb in region and an.tail2(c.callee) == "Peekable::peek"]
         nexts = [c for c in b.calls() if c.bb in region and an.tail2(c.callee) == "Iterator::next"]
+        condn = [c for c in b.calls() if c.bb in region and an.tail2(c.callee) in ("Peekable::next_if_eq", "Peekable::next_if")]
         incs = []
         for bb, i, pl, rv, s in b.assignments():
             if bb in region and rv["k"] == "binop" and rv["op"].startswith("Add") and pl.proj and pl.proj[-1].get("n") == "cursor":
                 k = an.trace_operand(b, Operand(rv["b"]))
-                incs.append(k.root[1] if k.root[0] == "const" else "?")
-        # the compared constant is '\n'
-        eqs = [c for c in b.calls() if c.bb in region | {cr} and an.tail2(c.callee) == "PartialEq::eq"]
-        lf = False
-        for c in eqs:
-            for a in c.args:
-                pv = None
-                if a.is_const() and "promoted" in (a.const or {}):
-                    pv = b.promoted_value(a.const["promoted"])
-                else:
-                    ap = an.trace_operand(b, a, through_calls=False)
-                    if a.place is not None:
-                        for db, di, d in b.defs_of(a.place.local):
-                            if isinstance(d, dict) and d["k"] == "ref":
-                                for db2, di2, d2 in b.defs_of(d["p"]["l"]):
-                                    if isinstance(d2, dict) and d2["k"] == "use" and "promoted" in d2["op"].get("c", {}):
-                                        pv = b.promoted_value(d2["op"]["c"]["promoted"])
-                if pv is not None and "\n" in repr(pv).replace("\\n", "\n"):
-                    lf = True
+                incs.append((bb, str(k.root[1]) if k.root[0] == "const" else "?"))
+
+        def const_has_lf(a):
+            pv = None
+            tr = an.trace_operand(b, a)
+            if tr.root[0] == "const" and "\n" in str(tr.root[1]):
+                return True
+            if a.is_const() and "promoted" in (a.const or {}):
+                pv = b.promoted_value(a.const["promoted"])
+            elif a.place is not None:
+                for db, di, d in b.defs_of(a.place.local):
+                    if isinstance(d, dict) and d["k"] == "ref":
+                        for db2, di2, d2 in b.defs_of(d["p"]["l"]):
+                            if isinstance(d2, dict) and d2["k"] == "use" and "promoted" in d2["op"].get("c", {}):
+                                pv = b.promoted_value(d2["op"]["c"]["promoted"])
+                            if isinstance(d2, dict) and d2["k"] == "use" and d2["op"].get("c", {}).get("ty") == "char":
+                                pv = d2["op"]["c"].get("v")
+                    if isinstance(d, dict) and d["k"] == "use" and "promoted" in d["op"].get("c", {}):
+                        pv = b.promoted_value(d["op"]["c"]["promoted"])
+            return pv is not None and "\n" in repr(pv).replace("\\n", "\n")
+
+        def only_one_of(x, y):
+            """Some path arm-head -> arm-exit passes block x but not block y."""
+            reach_x = x == cr or an.reach_avoiding(b, cr, {y}, {x}) is not None
+            return y != x and reach_x and (x in exits or an.reach_avoiding(b, x, {y}, exits) is not None)
+
         key = "lexer|CRLF"
-        if len(peeks) == 1 and len(nexts) == 1 and [str(x) for x in incs] == ["1"] and lf:
-            r.ok(key, why="peek()==Some('\\n') => one extra next() and cursor += 1")
+        problems = []
+        if len(nexts) + len(condn) != 1:
+            problems.append("%d consumption call(s) in the CR arm (expected exactly one)" % (len(nexts) + len(condn)))
+        if [a for _, a in incs] != ["1"]:
+            problems.append("byte-position increments in the CR arm are %s (expected one `cursor += 1`)" % [a for _, a in incs])
+        if not problems and nexts:
+            n_ = nexts[0]
+            eqs = [c for c in b.calls() if c.bb in region and an.tail2(c.callee) == "PartialEq::eq"]
+            lf = any(const_has_lf(a) for c in eqs for a in c.args)
+            guarded = False
+            for c in eqs:
+                for sw, pol in common.switches_on_call(b, c):
+                    if an.edge_dominates(b, (sw, common.bool_edge(b, sw, pol)), n_.bb):
+                        guarded = True
+            if not (len(peeks) == 1 and lf and guarded):
+                problems.append("the extra next() is not guarded by peek() == Some('\\n') (peeks=%d, compares with LF=%s, guarded=%s)" % (len(peeks), lf, guarded))
+            ib = incs[0][0]
+            if only_one_of(ib, n_.bb) or only_one_of(n_.bb, ib):
+                problems.append("`cursor += 1` and the extra next() are not on the same paths")
+        elif not problems and condn:
+            c_ = condn[0]
+            if an.tail2(c_.callee) != "Peekable::next_if_eq" or not const_has_lf(c_.args[1]):
+                problems.append("the conditional consumption is not next_if_eq(&'\\n')")
+            ib = incs[0][0]
+            some_edges = []
+            for sb in sorted(region):
+                t_ = b.term(sb)
+                if t_["k"] != "switch" or sb in b._const_switch:
+                    continue
+                for kind, obj, pol in an.cond_sources(b, Operand(t_["d"])):
+                    if kind == "call" and an.tail2(obj.callee) in ("Option::is_some", "Option::is_none"):
+                        inner = an.trace_operand(b, obj.args[0])
+                        if inner.root[0] == "call" and inner.root[2] == c_.bb:
+                            truth = pol if an.tail2(obj.callee) == "Option::is_some" else (not pol)
+                            some_edges.append((sb, common.bool_edge(b, sb, truth)))
+                    if kind == "discr":
+                        ap, rv_ = obj
+                        if ap.root[0] == "call" and ap.root[2] == c_.bb:
+                            names = rv_.get("variants", {})
+                            for v_, tb_ in t_["ts"]:
+                                if names.get(v_) == "Some":
+                                    some_edges.append((sb, tb_))
+            if not some_edges:
+                problems.append("the result of next_if_eq is not tested, so the byte position cannot follow the consumption")
+            else:
+                sb, tgt = some_edges[0]
+                if not an.edge_dominates(b, (sb, tgt), ib):
+                    problems.append("`cursor += 1` is not confined to the edge on which next_if_eq consumed the LF")
+                if tgt != ib and (tgt in exits or an.reach_avoiding(b, tgt, {ib}, exits) is not None):
+                    problems.append("a path on which next_if_eq consumed the LF skips `cursor += 1`")
+        if not problems:
+            r.ok(key, why="LF after CR is consumed by one call and the byte position advances by 1 on exactly those paths")
         else:
-            r.violate(key, "CRLF handling is not `if peek() == Some('\\n') { cursor += 1; next() }` (peeks=%d, nexts=%d, cursor increments=%s, compares with LF=%s)" % (len(peeks), len(nexts), incs, lf), b.loc())
+            r.violate(key, "CRLF handling in TokenLexer::next: " + "; ".join(problems) + " — CR LF must produce one `\\n` token and advance the byte position by 2", b.loc())
     # position bookkeeping: pos = cursor (before), cursor += len_utf8(kind)
     lens = [c for c in b.calls() if an.tail2(c.callee) == "char::len_utf8"]
     ok = bool(lens) and an.trace_operand(b, lens[0].args[0]).root == ("local", kind_local)
@@ -173,10 +233,65 @@ def rule_c(ctx):
         facts_at = an.bool_guard_calls(fs, c.bb)
         if not any(kind == "call" and obj.bb == cont[0].bb and truth is False for kind, obj, truth, d in facts_at) if cont else True:
             guarded = False
+    # every Identifier built in from_str wraps the result of one of those get_or_intern calls
+    intern_bbs = {c.bb for c in interns}
+    for bb, i, pl, rv, st_ in fs.assignments():
+        if rv["k"] == "agg" and rv.get("adt") == "grass_compiler::common::Identifier":
+            src = an.trace_operand(fs, Operand(rv["ops"][0]))
+            if not (src.root[0] == "call" and src.root[2] in intern_bbs and not src.proj):
+                guarded = False
+                r.note("Identifier built at line %d from %r, not from a normalised get_or_intern" % (st_["span"]["l"], src))
     if ok and guarded and interns:
         r.ok("Identifier::from_str|normalises-underscore")
     else:
         r.violate("Identifier::from_str|normalises-underscore", "Identifier::from_str no longer replaces every `_` by `-` before interning", fs.loc())
+    # the @forward prefix is a plain String that PrefixedMapView matches against normalised member names: it must itself be
+    # read with normalisation (parse_identifier(normalize = true, ..)) wherever an AstForwardRule is built
+    nfp = 0
+    for cb in prog.bodies.values():
+        for bb, i, pl, rv, st_ in cb.assignments():
+            if not (rv["k"] == "agg" and rv.get("adt", "").endswith("ast::stmt::AstForwardRule") and "prefix" in rv.get("fields", [])):
+                continue
+            src = an.trace_operand(cb, Operand(rv["ops"][rv["fields"].index("prefix")]))
+            if "Clone>::clone" in cb.path:
+                continue
+            if src.root[0] != "arg" or src.proj:
+                r.violate("AstForwardRule.prefix|%s" % cb.root, "%s builds an AstForwardRule whose prefix is %r, not a constructor parameter" % (cb.path, src), cb.loc())
+                continue
+            k = src.root[1]
+            for caller in prog.bodies.values():
+                for cc in caller.calls():
+                    if cb.path not in prog.call_targets(cc):
+                        continue
+                    nfp += 1
+                    key = "AstForwardRule.prefix|%s|from %s" % (cb.path.rsplit("::", 1)[-1], caller.root.rsplit("::", 1)[-1])
+                    a = cc.args[k - 1]
+                    okp = a.place is not None and not a.place.proj
+                    srcs = []
+                    if okp:
+                        loc_ = a.place.local
+                        for _g in range(6):
+                            ds = caller.defs_of(loc_)
+                            if len(ds) == 1 and isinstance(ds[0][2], dict) and ds[0][2]["k"] == "use" and "p" in ds[0][2]["op"] and not ds[0][2]["op"]["p"].get("p"):
+                                loc_ = ds[0][2]["op"]["p"]["l"]
+                            else:
+                                break
+                        for db, di, d in caller.defs_of(loc_):
+                            if isinstance(d, dict) and d["k"] == "agg" and d.get("variant") == "None":
+                                continue
+                            if isinstance(d, dict) and d["k"] == "agg" and d.get("variant") == "Some":
+                                pa = an.trace_operand(caller, Operand(d["ops"][0]))
+                                pc = caller.call_at(pa.root[2]) if pa.root[0] == "call" else None
+                                srcs.append(repr(pa))
+                                if pc is not None and (pc.name() or "").endswith("BaseParser::parse_identifier") and an.trace_operand(caller, pc.args[1]).root == ("const", True):
+                                    continue
+                            okp = False
+                    if okp:
+                        r.ok(key)
+                    else:
+                        r.violate(key, "%s passes a forward prefix that was not read with parse_identifier(normalize = true) (%s): `as my_lib_*` then never matches the "
+                                  "normalised member names (`my-lib-...`), so `_` and `-` stop being interchangeable in prefixed members" % (caller.path, srcs or a), cc.loc())
+    r.floor("AstForwardRule constructions with a prefix", nfp, 3)
     # every From impl goes through from_str
     n = 0
     for p, b in prog.bodies.items():
